@@ -563,6 +563,23 @@ def check_C06(cx):
             lhists.append(["N 0 -", "A 0 %s" % cases.hexs(whole), "G 0", "D 0 0 %d" % total, "F 0", "N 0 -",
                            "A 0 %s" % cases.hexs(b"\n".join(body[:c])), "A 0 %s" % cases.hexs(b"\n".join(body[c:])), "G 0", "D 0 0 %d" % total, "F 0"])
             lmeta.append(("split", total, sum(plen[l] for l in body[:c])))
+    # a caller buffer the program only just fits: feeding the non-emitting rest (comments, labels, blank lines, nothing at all) in a
+    # call of its own needs no room and changes nothing
+    tight_meta = []
+    tails = [b"; done", b"end:\n\n", b"section .text\n; c", b"   \n\t", b""]
+    for rep in range(40 if cx.tier == "quick" else 400):
+        body = [r.choice(pool) for _ in range(r.choice([1, 2, 3, 5]))]
+        lens_ = [plen[l] for l in body]
+        n = sum(lens_[:-1]) + 20 + r.choice([0, 0, 1, 5])
+        if n < sum(lens_):
+            continue
+        tail = r.choice(tails)
+        text = b"\n".join(body)
+        one = text + b"\n" + tail
+        h = ["N 0 %d cc" % n, "A 0 %s" % cases.hexs(one), "G 0", "D 0 0 %d" % n, "F 0", "N 0 %d cc" % n, "A 0 %s" % cases.hexs(text),
+             "A 0 %s" % (cases.hexs(tail) if tail else "-"), "A 0 -", "G 0", "D 0 0 %d" % n, "F 0"]
+        lhists.append(h)
+        lmeta.append(("tight-split", sum(lens_), n))
     lops, lout = tie_api_mod_lf(cx, impl, lhists, "C06 long programs on the library-managed buffer: one call vs per line vs splits at growth points")
     pos = 0
     for (kind, total, at), h in zip(lmeta, lhists):
@@ -858,9 +875,12 @@ def check_C08(cx):
     hists, meta = [], []
     BIG = 40000
 
+    lens = ["", "1", "100", "4096", "16384", "1048576", "2147483647"]
+
     def twin(ops_for):
-        """the same calls on an internal instance (id 0) and on a big caller buffer (id 1)"""
-        h = ["N 0 -", "N 1 %d 00" % BIG]
+        """the same calls on an internal instance (id 0) and on a big caller buffer (id 1); the length argument of a create without
+        caller buffer is documented as irrelevant: every value of it is used"""
+        h = ["N 0 -%s" % lens[len(hists) % len(lens)], "N 1 %d 00" % BIG]
         h += ops_for(0) + ops_for(1)
         h += ["G 0", "G 1", "B 0", "F 0", "F 1"]
         return h
@@ -1211,6 +1231,17 @@ def malformed_families(g, corpus):
             for tpl in ("lea rax, [rbx+%s]", "mov [%s], rax", "add qword [rbx+%s+8], 1", "vpaddd ymm1, ymm2, [r9+%s-0x80]", "lea eax, [%s+0x10]"):
                 out += [("scale", tpl % ("rcx*" + sc)), ("scale", tpl % (sc + "*rcx"))]
             out += [("scale", "lea rax, [rbx+r13*%s]" % sc), ("scale", "lea rax, [ebx+%s*ecx]" % sc)]
+        # every invalid memory expression under every class of instruction that takes a memory operand (one, two, three operands,
+        # legacy / VEX / BMI, with immediate, indirect branch)
+        bad_mems = ["[rax+rsp*2]", "[rbx+4*rsp]", "[rsp+rsp]", "[esp+esp]", "[rax+rsp*8+0x10]", "[2*rsp]", "[r9+rcx*3]", "[rbx+rcx*2", "[rax+5*rdx]",
+                    "[rax+esp*4]", "[r12+8*rsp-4]"]
+        carriers = ["lea rax, %s", "mov rax, %s", "mov %s, rax", "mov qword %s, 5", "mov qword %s, 0x100000000", "add %s, rcx", "add dword %s, 0x12345678",
+                    "inc qword %s", "push qword %s", "jmp %s", "call qword %s", "imul rax, %s, 3", "movzx eax, byte %s", "paddb xmm1, %s",
+                    "movdqu %s, xmm2", "vaddpd ymm0, ymm1, %s", "vmovdqu %s, ymm3", "vpermd ymm1, ymm2, %s", "bextr rax, %s, rbx",
+                    "mulx rax, rbx, %s", "shlx eax, %s, ecx", "vperm2i128 ymm0, ymm1, %s, 1", "cmovne rax, %s", "xchg %s, rdx", "shl qword %s, 3"]
+        for bm in bad_mems:
+            for ca in carriers:
+                out.append(("memory", ca % bm))
         out += [("memory", "lea rax, [rsp+rsp]"), ("memory", "lea rax, [esp+esp]"), ("memory", "lea rax, [rsp+*4*r14*4]"),
                 ("memory", "mov [rax],[rbx]"), ("memory", "lea rax, [2*rsp]"), ("memory", "lea rax, [4*rsp+0x10]"), ("memory", "lea rax, [rsp+4*rsp]")]
     return out
@@ -2027,6 +2058,25 @@ def check_enc(cx):
         if idx < len(out2) and out2[idx] != "90" + b:
             groups.setdefault((items[t].split()[0], pattern_of(items[t]), "second assembly after padding differs"), []).append(
                 (t, o, out2[idx], "assembled once: " + b))
+    if cx.prop == "C02":
+        # an immediate that does not fit the destination must not cost the line its memory operand: same bytes in front of the immediate
+        # field as with the immediate 5 (fixed defect 4fe4638: `mov qword [rax], 0x100000000` became `mov rax, imm64`)
+        stores = [t for t in texts if re.match(r"^mov (qword|dword|word|byte) \[[^\]]*\], 0x5$", t)]
+        bkeys, bref = [], []
+        for t in stores:
+            k = {"qword": 4, "dword": 4, "word": 2, "byte": 1}[t.split()[1]]
+            for big in ("0x100000000", "0x123456789a", "0xffffffffffff", "0x8000000000000000", "0x7fffffffffffffff"):
+                for o in opts_of(t):
+                    bkeys.append((o, t.replace("0x5", big).encode()))
+                    bref.append((res[(o, t.encode())], k, t))
+        bops, bout = tie_lines(cx, impl, bkeys, "C02 stores of immediates wider than the destination")
+        for (o, bt), ln, (ref, k, t) in zip(bkeys, bout, bref):
+            p_ = ln.split()
+            got = (p_[0], p_[2] if p_[0] == "0" and len(p_) > 2 else "-")
+            if ref[0] == "0" and (got[0] != "0" or len(got[1]) != len(ref[1]) or got[1][:-2 * k] != ref[1][:-2 * k]):
+                groups.setdefault(("mov", pattern_of(items[t]), "a wide immediate changes the bytes in front of the immediate field"), []).append(
+                    (bt.decode(), o, got[1], "with the immediate 5: " + ref[1]))
+        cx.dist_extra = {"wide_immediate_stores": len(bkeys)}
     if cx.prop == "C03":
         # the flagship (theorems C03.mov_r64_*): `mov r64, v` for seeded random and boundary v, all 16 registers, four spellings, the three
         # mov-immediate modes; oracle: the three encodings of AL.Spec.MovImm.movBytes, computed here independently
@@ -2094,7 +2144,7 @@ def check_enc(cx):
 
 ENC_THEOREMS = {
     "C01": ["AL.Properties.Sweep.c01_sweep", "AL.Properties.C01.nop_table_decodes", "AL.Properties.C01.no_operand_lines", "AL.Properties.C01.letter_case_irrelevant"],
-    "C02": ["AL.Properties.Sweep.c02_sweep", "AL.Properties.Sweep.c02_sweep_mixed", "AL.Properties.C02.disp_field_reads_back", "AL.Properties.C02.decoder_reads_every_operand", "AL.Spec.X86.leVal_assembleConst", "AL.Spec.X86.toSigned_roundtrip",
+    "C02": ["AL.Properties.Sweep.c02_sweep", "AL.Properties.Sweep.c02_sweep_mixed", "AL.Properties.C02.disp_field_reads_back", "AL.Properties.C02.decoder_reads_every_operand", "AL.Properties.C02.mov_load_every_disp", "AL.Lemmas.MemLoad.mem_bytes", "AL.Lemmas.MemLoad.memBytes_canonical", "AL.Spec.X86.leVal_assembleConst", "AL.Spec.X86.toSigned_roundtrip",
             "AL.Properties.C11.swap_same_address", "AL.Properties.C11.nobase_scale2_same_address", "AL.Properties.C11.nobase_scale1_same_address"],
     "C03": ["AL.Properties.Sweep.c03_sweep", "AL.Properties.C03.written_number_value", "AL.Properties.C03.written_number_value_padded", "AL.Properties.C03.imm_field_reads_back", "AL.Properties.C03.imm_field_dword", "AL.Properties.C03.imm_field_qword",
             "AL.Properties.C03.mov_r64_hex", "AL.Properties.C03.mov_r64_neg_hex", "AL.Properties.C03.mov_r64_dec", "AL.Properties.C03.mov_r64_neg_dec",
@@ -2103,7 +2153,8 @@ ENC_THEOREMS = {
             "AL.Lemmas.strtoul_dec", "AL.Lemmas.strtoul_hex", "AL.Lemmas.strtoul_neg_dec", "AL.Lemmas.strtoul_neg_hex"],
     "C04": ["AL.Properties.Sweep.c04_sweep", "AL.Properties.C04.vex2_is_vex3"],
     "C05": ["AL.Properties.Sweep.c05_sweep", "AL.Properties.C05.rel_field_reads_back", "AL.Properties.C05.written_displacement", "AL.Properties.C03.written_number_value_padded",
-            "AL.Properties.C05.rel_branch_every_d", "AL.Lemmas.Branch.relKeys_classified", "AL.Lemmas.Branch.j_bytes", "AL.Lemmas.Branch.c_bytes", "AL.Lemmas.Branch.r_bytes"],
+            "AL.Properties.C05.rel_branch_every_d", "AL.Properties.C05.rel_branch_text_dec", "AL.Properties.C05.rel_branch_text_neg_dec",
+            "AL.Properties.C05.rel_branch_text_hex", "AL.Properties.C05.rel_branch_text_neg_hex", "AL.Lemmas.BranchText.branch_line", "AL.Lemmas.Branch.relKeys_classified", "AL.Lemmas.Branch.j_bytes", "AL.Lemmas.Branch.c_bytes", "AL.Lemmas.Branch.r_bytes"],
 }
 
 
